@@ -34,7 +34,11 @@ CLAIMS = {
         technique="Rocq proof (invariant by induction over operation histories on an abstract world machine) + step-wise observational correspondence + fresh-rebuild spec check",
         design="§5 C06"),
     "C05": dict(
-        text=("Rocq proof over the model of the ZID write-back: for items whose words are separated by single spaces the "
+        text=("Rocq proof, on abstract items of any length (C05_zid_written_into_item): writing the ZID into the canonical "
+              "text of a ZID-less item yields the canonical text of the item whose identity is that ZID, and "
+              "(C05_index_body_is_file_body) the body the index stores is the body of the note the rewritten line compiles to "
+              "(with the page theorem of C01: the rewritten page compiles to the same notes, now with their ZIDs). Line level: "
+              "for items whose words are separated by single spaces the "
               "rewritten first line is 'prefix + ZID + rest' (after kind, after kind+priority, in place of a leading long "
               "date), the body the index stores equals the rest of the rewritten line, and _update_zo_file changes only the "
               "listed first lines (length and all other lines preserved); irregular spacing is REFUTED (known finding). "
@@ -46,7 +50,9 @@ CLAIMS = {
         technique="Rocq proof (line-rewriting lemmas via split/join round trip) + byte-exact correspondence + recompile-vs-index spec check",
         design="§5 C05"),
     "C11": dict(
-        text=("Rocq proof over the model of _check_for_modified_notes / _add_or_update_modify_date: a note is stamped IFF it "
+        text=("Rocq proof, on abstract items (C11_date_written_into_item): stamping rewrites the canonical text of an item "
+              "into that of the same item with identity 'modify date + ZID' (inserted or replaced), nothing else changes. "
+              "Over the model of _check_for_modified_notes / _add_or_update_modify_date: a note is stamped IFF it "
               "had that ZID in the previous index state, its body or todo state differs, and it is not dated today; a note "
               "dated today is never re-stamped (idempotence), an unchanged note never; the date is inserted or replaces a "
               "six-digit word in front of the ZID; all other lines are untouched; the heuristic about the modify-date word is "
